@@ -4,13 +4,16 @@
 //!        engine replay <file>
 
 mod common;
+mod c08;
 mod c09;
 mod c10;
 mod c11;
 mod c12;
 mod c13;
+mod c15;
 mod c16;
 mod c18;
+mod c19;
 mod corpus;
 mod e1;
 mod oracles;
@@ -62,13 +65,16 @@ fn main() {
         "C05" => e1::run_c05(tier),
         "C06" => e1::run_c06(tier),
         "C14" => e1::run_c14(tier),
+        "C08" => c08::run(tier),
         "C09" => c09::run(tier),
         "C10" => c10::run(tier),
         "C11" => c11::run(tier),
         "C12" => c12::run(tier),
         "C13" => c13::run(tier),
+        "C15" => c15::run(tier),
         "C16" => c16::run(tier),
         "C18" => c18::run(tier),
+        "C19" => c19::run(tier),
         _ => {
             eprintln!("engine: unknown property {id}");
             std::process::exit(2)
@@ -104,7 +110,7 @@ fn replay(path: &str) -> i32 {
     init_ctx(id, Tier::Quick, level_of(id));
     println!("replaying {id} case: {case}");
     let vs: Vec<Violation> = match id {
-        "C03" | "C04" | "C05" | "C06" | "C14" | "C17" => {
+        "C03" | "C04" | "C05" | "C06" | "C14" | "C15" | "C17" => {
             let input = case["input"].as_str().unwrap_or("");
             let cfgs: Vec<strings::Config> = if case.get("configs").is_some() {
                 case["configs"].as_array().unwrap().iter().map(strings::Config::from_json).collect()
@@ -119,6 +125,7 @@ fn replay(path: &str) -> i32 {
                     "C05" => oracles::c05_check(cfg, input).0,
                     "C06" => oracles::c06_check(cfg, input).0,
                     "C14" => oracles::c14_check(cfg, input).0,
+                    "C15" => c15::check(cfg, input).0,
                     _ => oracles::c17_crlf_check(cfg, input).0,
                 });
                 match r {
@@ -133,7 +140,9 @@ fn replay(path: &str) -> i32 {
         "C09" => c09::replay(case),
         "C13" => c13::replay(case),
         "C10" => c10::replay(case),
+        "C08" => c08::replay(case),
         "C18" => c18::replay(case),
+        "C19" => c19::replay(case),
         "C16" => c16::replay(case),
         _ => {
             eprintln!("engine: replay not supported for {id}");
